@@ -35,16 +35,21 @@ CLAIMS = {
   ref="DESIGN.md section 4 C07"),
  "C13": dict(
   text="Theorem C13.run_spec: for EVERY machine class composition (any flat list of pre-connect, connector / console connector, "
-       "initialiser incl. PowerControl, shell, post-shell mixins and init hook), every balanced nesting history and every fault "
+       "initialiser incl. PowerControl, shell, post-shell mixins and init hook; any of the mixins' context managers may HANDLE the "
+       "exception passing through it), every balanced nesting history and every fault "
        "assignment over all enter/exit/power_check/poweron/poweroff/hook/body points, the operational model of Machine.__enter__/"
        "__exit__ (re-entrancy counter, ExitStack, guard) and PowerControl._init_machine produces exactly the declaratively specified "
        "trace: steps begin in documented order up to the first fault, the body runs iff initialisation completed, exactly what was "
-       "begun is torn down in reverse, the last exception raised reaches the caller, the counter is 0 and a fresh entry initialises "
-       "again; corollaries power_off_exactly_once, power_off_position, conn_exit_after_power_off, refused_no_power, exc_iff_raised. "
+       "begun is torn down in reverse whatever is handled, the caller gets the last tear-down fault not handled by a step further "
+       "out, else the set-up's / body's own exception (always; without handling steps: the last exception raised, spec_eq_plain), "
+       "the counter is 0 and a fresh entry initialises "
+       "again; corollaries power_off_exactly_once, power_off_position, conn_exit_after_power_off, refused_no_power, exc_iff_raised, "
+       "body_exception_always_propagates, teardown_fault_propagates_unless_handled, handled_steps_still_torn_down. "
        "The same Spec is evaluated on dynamically composed REAL machine classes with instrumented mixins (15 000 cases per quick run; "
        "thorough: every single fault point and every pair for compositions of <= 7 steps).",
-  note="contextlib.ExitStack / generator context-manager semantics are modelled (LIFO, continue past faults, last exception wins, no "
-       "suppression); mixins subclass their Initializer base directly; at most one connector/shell/PowerControl per class.",
+  note="contextlib.ExitStack / generator context-manager semantics are modelled (LIFO, continue past faults, a raising exit "
+       "replaces the exception in flight, a handling exit clears it, Machine.__exit__ discards the stack's verdict); the lab-host "
+       "clone of a ConsoleConnector does not handle; mixins subclass their Initializer base directly; at most one connector/shell/PowerControl per class.",
   ref="DESIGN.md section 4 C13"),
  "C03": dict(
   text="Theorems C03.op_spec / C03.case_spec: for every channel state and every read(n)/read()/read_iter(max,k)/readline/write/send/"
